@@ -4,7 +4,7 @@
        regular file returns exactly the backend bytes (zeros in holes), count = min(requested, transfer
        size, size - offset), eof iff offset + count >= size; a WRITE replying OK with count n has
        stored exactly the first n payload bytes at its offset and changed nothing else; SETATTR(size)
-       truncates/extends with zeros; a failed request leaves the tree unchanged. *)
+       and CREATE(size) truncate/extend with zeros; a failed request leaves the tree unchanged. *)
 From Coq Require Import List NArith ZArith Bool.
 From Verif Require Import Model.Handles Model.Backend Model.Srv Corr.Common Corr.SrvCase.
 Import ListNotations.
@@ -80,6 +80,26 @@ Definition spec_step (x : octx) : list (N * N) :=
         | None => []
         end
       | _, _ => []
+      end
+  | RCreate h n how sa =>
+      (* UNCHECKED / GUARDED CREATE that replies OK: an existing regular file keeps its bytes, cut or zero-extended to
+         the requested size when one is given; a new file is all zeros of the requested size *)
+      match g_get (oc_ghost x) h with
+      | Some p =>
+        let q := p ++ [n] in
+        if status_ok st && (how <? 2) then
+          match d_get prev q, file_at prev q, file_at post q with
+          | Some _, Some (size, data), Some (size', data') =>
+              match s_size sa with
+              | Some sz => if (size' =? sz) && sdata_eqb data' (sd_trunc data sz) then [] else fail
+              | None => if (size' =? size) && sdata_eqb data' data then [] else fail
+              end
+          | None, _, Some (size', data') =>
+              if (size' =? match s_size sa with Some sz => sz | None => 0 end) && sdata_eqb data' [] then [] else fail
+          | _, _, _ => []
+          end
+        else []
+      | None => []
       end
   | _ => []
   end.
